@@ -839,9 +839,14 @@ func findSinkType(params *filterParams, parent ast.Node, kv *ast.KeyValueExpr, e
 		}
 
 	case *ast.CallExpr:
-		switch typ := params.ctx.Types.TypeOf(parent.Fun).(type) {
+		funType := params.ctx.Types.TypeOf(parent.Fun)
+		if tv, ok := params.ctx.Types.Types[parent.Fun]; (ok && tv.IsType()) || funType == nil {
+			// A type cast.
+			return funType
+		}
+		switch typ := funType.Underlying().(type) {
 		case *types.Signature:
-			// A function call argument.
+			// A function call argument (the callee may be a value of a named function type).
 			for i, arg := range parent.Args {
 				if astutil.Unparen(arg) != e {
 					continue
@@ -855,9 +860,6 @@ func findSinkType(params *filterParams, parent ast.Node, kv *ast.KeyValueExpr, e
 				}
 				break
 			}
-		default:
-			// Probably a type cast.
-			return typ
 		}
 	}
 
